@@ -638,8 +638,17 @@ impl Tracer {
                 Some(StopReason::DebugeeStart) => {
                     unreachable!("stop at debugee entry point twice")
                 }
-                Some(StopReason::SignalStop(_, signal)) => {
+                Some(StopReason::SignalStop(signal_pid, signal)) => {
                     if QUIET_SIGNALS.contains(&signal) {
+                        // the signal is passed to the tracee right now,
+                        // it must not be injected a second time on resume
+                        if let Some(idx) = self
+                            .inject_signal_queue
+                            .iter()
+                            .rposition(|req| *req == (signal_pid, signal))
+                        {
+                            self.inject_signal_queue.remove(idx);
+                        }
                         self.tracee_ctl.tracee_ensure(pid).step(Some(signal))?;
                         continue;
                     }
